@@ -52,6 +52,7 @@ inductive Item where
   | contextLine (ln : Nat) (bytes : Bytes)
   | sep
   | stoppedWarning (off : Nat)      -- "WARNING: stopped searching binary file after match …"
+  | stoppedNoMatch (off : Nat)      -- "WARNING: stopped searching binary file …" (lines printed, none matched; ea82056)
   | binaryMatches (off : Nat)       -- "binary file matches …"
   deriving Repr, DecidableEq, Inhabited
 
@@ -76,15 +77,20 @@ def step (det : Det) (st : St) : Ev → St × Bool
   | .ctxBreak => ({ st with out := st.out ++ [.sep] }, true)
   | .binaryData off => ({ st with binOff := some off }, true)
 
+/-- `write_binary_message`, `cut_short` (ea82056): in `Quit` mode the warning is due whenever this
+search has written something, even if no line of it matched (`this_search_written`: every item is at
+least one byte). -/
+def cutShort (det : Det) (st : St) : Bool := det == .quit && !st.out.isEmpty
+
 /-- `StandardSink::finish` + `write_binary_message`. -/
 def finish (det : Det) (st : St) : List Item :=
   match st.binOff with
   | none => st.out
   | some off =>
-    if st.matchCount = 0 then st.out
+    if st.matchCount = 0 && !cutShort det st then st.out
     else
       match det with
-      | .quit => st.out ++ [.stoppedWarning off]
+      | .quit => st.out ++ [if st.matchCount = 0 then .stoppedNoMatch off else .stoppedWarning off]
       | .convert => st.out ++ [.binaryMatches off]
       | .none => st.out
 
@@ -99,7 +105,7 @@ def feed (det : Det) : St → List Ev → St
 /-- One search printed by the standard printer (`begin` resets the state). -/
 def stdRun (det : Det) (evs : List Ev) : List Item := finish det (feed det {} evs)
 
-/-! ### executable predicates on streams (guards of the partial theorems) -/
+/-! ### executable predicates on streams -/
 
 def Ev.isBinaryData : Ev → Bool
   | .binaryData _ => true
@@ -112,11 +118,6 @@ def Ev.isMatched : Ev → Bool
 def Ev.isContext : Ev → Bool
   | .context _ _ _ => true
   | _ => false
-
-/-- Guard of the partial statement `C14_partial_quit`: whenever a line was delivered before the
-detection, a matching line was. -/
-def MatchIfLine (pre : List Ev) : Bool :=
-  !(pre.any (fun e => e.isMatched || e.isContext)) || pre.any (fun e => e.isMatched)
 
 /-! ### rendering (`-H --no-heading -n --color never`) -/
 
@@ -131,6 +132,8 @@ def natBytes (n : Nat) : Bytes := natDigits (n + 1) n []
 
 /-- the text `: WARNING: stopped searching binary file after match (found "\\0" byte around offset ` -/
 def warnStopped : Bytes := [58, 32, 87, 65, 82, 78, 73, 78, 71, 58, 32, 115, 116, 111, 112, 112, 101, 100, 32, 115, 101, 97, 114, 99, 104, 105, 110, 103, 32, 98, 105, 110, 97, 114, 121, 32, 102, 105, 108, 101, 32, 97, 102, 116, 101, 114, 32, 109, 97, 116, 99, 104, 32, 40, 102, 111, 117, 110, 100, 32, 34, 92, 48, 34, 32, 98, 121, 116, 101, 32, 97, 114, 111, 117, 110, 100, 32, 111, 102, 102, 115, 101, 116, 32]
+/-- the text `: WARNING: stopped searching binary file (found "\\0" byte around offset ` (no line matched) -/
+def warnStoppedNoMatch : Bytes := [58, 32, 87, 65, 82, 78, 73, 78, 71, 58, 32, 115, 116, 111, 112, 112, 101, 100, 32, 115, 101, 97, 114, 99, 104, 105, 110, 103, 32, 98, 105, 110, 97, 114, 121, 32, 102, 105, 108, 101, 32, 40, 102, 111, 117, 110, 100, 32, 34, 92, 48, 34, 32, 98, 121, 116, 101, 32, 97, 114, 111, 117, 110, 100, 32, 111, 102, 102, 115, 101, 116, 32]
 /-- the text `: binary file matches (found "\\0" byte around offset ` -/
 def warnMatches : Bytes := [58, 32, 98, 105, 110, 97, 114, 121, 32, 102, 105, 108, 101, 32, 109, 97, 116, 99, 104, 101, 115, 32, 40, 102, 111, 117, 110, 100, 32, 34, 92, 48, 34, 32, 98, 121, 116, 101, 32, 97, 114, 111, 117, 110, 100, 32, 111, 102, 102, 115, 101, 116, 32]
 /-- `)` and a newline -/
@@ -155,7 +158,9 @@ def sepFieldContextText : String := "-"
 /-- `separator_context: Arc::new(Some(b"--".to_vec()))` -/
 def sepContextText : String := "--"
 /-- `standard.rs` `write_binary_message`, `Quit` -/
-def warnStoppedHead : String := "WARNING: stopped searching binary file after match"
+def warnStoppedHead : String := "WARNING: stopped searching binary file"
+/-- `write_binary_message`: `if self.sink.match_count > 0 { " after match" } else { "" }` -/
+def warnAfterMatchText : String := " after match"
 /-- `standard.rs` `write_binary_message`, `Convert` -/
 def warnMatchesHead : String := "binary file matches"
 def warnFoundText : String := " (found "
@@ -170,6 +175,7 @@ def renderItem (path : Bytes) : Item → Bytes
   | .contextLine ln bs => path ++ fieldContextSep ++ natBytes ln ++ fieldContextSep ++ withTerm bs
   | .sep => contextSepLine
   | .stoppedWarning off => path ++ warnStopped ++ natBytes off ++ warnEnd
+  | .stoppedNoMatch off => path ++ warnStoppedNoMatch ++ natBytes off ++ warnEnd
   | .binaryMatches off => path ++ warnMatches ++ natBytes off ++ warnEnd
 
 def render (path : Bytes) (items : List Item) : Bytes := items.flatMap (renderItem path)
